@@ -131,12 +131,50 @@ def explore(chk: Check, owner: str, cross=False):
                     chk.violation(f"AaveV3Market|{clause}|{rep['events'][-1]['op'] if rep['events'] else 'prefix'}", text, rep)
                 else:
                     chk.count(f"other/{prop}/{clause}")
+    if not cross:
+        all_probes.extend(pinned(chk, owner))
     judge_probes(chk, owner, all_probes)
     chk.extra["distinct_nontrivial"] = chk.extra.get("distinct_nontrivial", 0) + len(nontrivial)
     chk.extra["aave_universe"] = {"tokens": sorted(universe["tokens"]), "rows": len(universe["rows"])}
     chk.assumptions += ["rate_to_apy(rate) is taken from the code as a leaf function; the spec provides the value weights",
                         "risk parameters enter through a harness-generated CSV in the format load_risk_parameter reads"]
     return None
+
+
+def pinned(chk: Check, owner: str):
+    """Behaviours kept from earlier thorough runs (harness/aave_pins.jsonl: event sequences only): the specification recomputes what
+    must happen (Trace_AaveProbe kind=path), the real market is stepped through them like any other path."""
+    import json
+    from . import aave_drv
+    f = VERIF / "harness" / "aave_pins.jsonl"
+    pins = [json.loads(l) for l in open(f)] if f.exists() else []
+    probes = []
+    tla = VERIF / "spec" / "trace" / "Trace_AaveProbe.tla"
+    for n, pin in enumerate(pins):
+        scn, events = pin["scenario"], pin["events"]
+        pf = chk.tmp / f"pin_{n}.ndjson"
+        pf.write_text(json.dumps({"kind": "path", "scn": scn, "events": events}) + "\n")
+        r = tlc.run(tla, tla.parent / ("Trace_AaveProbe2.cfg" if pin.get("lvl2") else "Trace_AaveProbe.cfg"), chk.tmp, workers=1,
+                    env={"VERIF_PROBES": str(pf)}, timeout=600)
+        exp = tlc.printed(r.output, "probe_results")[0]
+        uni = aave_drv.Universe(tlc.printed(r.output, "universe"))
+        steps = [(s["ev"], s["out"], list(s["acts"]), s["st"], s["view"]) for s in exp]
+        got = []
+        mm, at = aave_drv.replay_path(uni, [_tup(e) for e in scn], steps, "events", chk.count, got, owner == "C11")
+        uni.close()
+        chk.traces += 1
+        chk.evaluations += len(steps)
+        rep = {"kind": "aave_path", "scenario": scn, "events": events, "read_mode": "events", "lvl2": bool(pin.get("lvl2"))}
+        for pr in got:
+            pr["scenario"], pr["events"] = scn, events[:pr.get("step", 0) + 1]
+        probes.extend(got)
+        for m in mm:
+            if m.prop == owner:
+                chk.violation(f"AaveV3Market|{m.clause}|{events[at]['op'] if at >= 0 else 'prefix'}", m.text, rep)
+            else:
+                chk.count(f"other/{m.prop}/{m.clause}")
+    chk.extra["pinned_behaviours"] = len(pins)
+    return probes
 
 
 def judge_probes(chk: Check, owner: str, probes):
